@@ -63,6 +63,11 @@ reg("C09", "./checks/core", "^TestC09", assumptions=["specifications are determi
 reg("C13", "./checks/core", "^TestC13", assumptions=["strings in YAML renderings are produced by the YAML library's own marshaller", "native actions cannot be represented as text and are not generated here"])
 reg("C18", "./checks/core", "^TestC18", assumptions=A_CORE + ["an action that returns null gets empty bindings; whether permanent bindings survive that is not judged"])
 
+A_ES = ["schedules are sampled by the Go scheduler under the race detector; a green run is 'no counterexample in the sampled schedules'"]
+reg("C10", "./checks/es", "^TestC10", race=True, shards=(4, 16), assumptions=A_ES)
+reg("C12", "./checks/es", "^TestC12", race=True, shards=(4, 16), gomaxprocs=[16, 4, 2, 8], assumptions=A_ES + ["a data race reported by the race detector fails the test binary (exit status), which the driver reports"])
+reg("C11", "./checks/es", "^TestC11", race=True, shards=(4, 16), assumptions=["promptness is judged against deadline + 6 s (quick) / 15 s (thorough): a lost interrupt means never, so the bound is generous", "scripts spend their time in interpreted code, not in one long built-in call"])
+
 
 def log(*a):
     print(*a, flush=True)
@@ -298,6 +303,34 @@ def run_check(pid, tier, replay=None):
                                    "  %s: the test process died: %s" % (pid, first[0] if first else "fatal error")))
             else:
                 bad_shards.append((k, p.returncode, text))
+    # race detector reports (GORACE log_path): a race with frames in
+    # sheens code is a violation; one confined to the harness is our bug
+    for rf in sorted(glob.glob(os.path.join(work, "race.*"))):
+        rtext = open(rf, errors="replace").read()
+        if "DATA RACE" not in rtext:
+            continue
+        k = int(os.path.basename(rf).split(".")[1])
+        bad_shards = [b for b in bad_shards if b[0] != k]
+        if "github.com/Comcast/sheens" in rtext or REPO + "/" in rtext:
+            os.makedirs(os.path.join(ROOT, "replays", pid), exist_ok=True)
+            dst = os.path.join(ROOT, "replays", pid, "race-%d-%d.json" % (int(time.time()), k))
+            journals = sorted(glob.glob(os.path.join(work, "w%d" % k, "journal-%s-*.json" % pid)), key=os.path.getmtime)
+            case = None
+            if journals:
+                try:
+                    case = json.load(open(journals[-1])).get("case")
+                except Exception:
+                    case = None
+            with open(dst, "w") as f:
+                json.dump({"property": pid, "check": "race", "message": rtext[:6000], "case": case}, f, indent=1)
+            frames = [l.strip() for l in rtext.splitlines() if "github.com/Comcast/sheens" in l][:3]
+            line = "VIOLATION property=%s replay=%s" % (pid, dst)
+            if line not in [v[0] for v in violations]:
+                violations.append((line, "  %s: the race detector reports a data race in %s" % (pid, "; ".join(frames))))
+        else:
+            infra = True
+            log("race report without sheens frames (harness problem):")
+            log(rtext[:2000])
     subs = merge_stats([os.path.join(work, "stats.%d.jsonl" % k) for k in range(nshards)])
     # every shard must have explored what it was asked to
     short = [s["name"] for s in subs.values() if not s["replay"] and s["violations"] == 0
